@@ -26,6 +26,7 @@ type coreProfile struct {
 	stall     int // % of cases in which one reader pauses for a while
 	fec       int // % of deliveries fed as non-regular (FEC-recovered) packets
 	bigSend   bool
+	overWnd   bool // messages may have more fragments than the receiver's window (outside contract B8: they strand, but what IS delivered keeps its boundaries)
 	rawLong   bool // allow datagrams longer than 1500 bytes (raw core)
 	sizes     []int
 	maxTicks  int
@@ -112,7 +113,7 @@ func (s *coreSim) genPayload(rng *vrng, e int, p coreProfile) []byte {
 		n = rng.pick(254*mss+1, 255*mss, 255*mss+1, 256*mss, 256*mss+1)
 	}
 	// B8: in message mode a message must fit the receiver's window (documented contract)
-	if s.cfg.Stream == 0 && !p.bigSend {
+	if s.cfg.Stream == 0 && !p.bigSend && !p.overWnd {
 		maxFrag := int(s.k[1-e].rcv_wnd)
 		if maxFrag > 257 {
 			maxFrag = 257 // beyond 255 fragments Send refuses; the refusal itself is part of the contract
